@@ -58,3 +58,25 @@ def count_ops(dump_path, var="op"):
             if m:
                 c[m.group(1)] += 1
     return c
+
+
+def _sim_worker(args):
+    modname, fnname, ctx, paths = args
+    fn = getattr(importlib.import_module(modname), fnname)
+    out = []
+    for p in paths:
+        sts = tlaval.sim_states(p)
+        if sts:
+            out.append(fn(sts[-1], ctx))
+    return out
+
+
+def replay_sim(simdir, modname, fnname, ctx, nproc=16, batch=50):
+    """replay the final state of every behaviour file written by `tlc -simulate file=<simdir>/tr,...`"""
+    paths = sorted(os.path.join(simdir, f) for f in os.listdir(simdir))
+    jobs = [(modname, fnname, ctx, paths[i:i + batch]) for i in range(0, len(paths), batch)]
+    ctxm = mp.get_context("fork")
+    with ctxm.Pool(nproc) as pool:
+        for res in pool.imap_unordered(_sim_worker, jobs):
+            for r in res:
+                yield r
